@@ -2,6 +2,7 @@ package main
 
 import (
 	"fmt"
+	"strings"
 	"time"
 
 	"verif/harness/internal/core"
@@ -65,6 +66,17 @@ func runC07Requery(c *core.Ctx, drv string, idx int) {
 				col := t.Cols[r.Intn(len(t.Cols))].Name
 				q := fmt.Sprintf("SELECT COUNT(%s) FROM %s", col, tn)
 				probes = append(probes, probe{op: s.query(q), kind: "countcol", table: tn, col: col, step: st, text: q})
+				if st%2 == 1 {
+					// every column of the table as a grouping column, the
+					// aggregate behind them: a select list one longer than the
+					// table is wide
+					var cols []string
+					for _, cl := range t.Cols {
+						cols = append(cols, cl.Name)
+					}
+					q := fmt.Sprintf("SELECT %s, COUNT(*) FROM %s GROUP BY %s", strings.Join(cols, ", "), tn, strings.Join(cols, ", "))
+					probes = append(probes, probe{op: s.query(q), kind: "groupall", table: tn, step: st, text: q})
+				}
 			}
 		}
 	}
@@ -103,6 +115,53 @@ func runC07Requery(c *core.Ctx, drv string, idx int) {
 		if res.Err != "" {
 			c.Violation("C07:requery:query-error", fmt.Sprintf("%s returned %s", p.text, res.Err), rp)
 			return
+		}
+		if p.kind == "groupall" {
+			want := map[string]int64{}
+			hasNull := false
+			for _, row := range sr.Rows {
+				key := ""
+				for _, v := range row.Vals {
+					if v.IsNull() {
+						hasNull = true
+					}
+					key += v.Enc() + "|"
+				}
+				want[key]++
+			}
+			if hasNull {
+				continue // how NULLs group is not stated
+			}
+			got := map[string]int64{}
+			bad := ""
+			for _, row := range res.Rows {
+				if len(row.Vals) < 1 || row.Vals[len(row.Vals)-1].K != 'i' {
+					bad = "a result row without an integer count in last place"
+					break
+				}
+				key := ""
+				for _, v := range row.Vals[:len(row.Vals)-1] {
+					key += v.Enc() + "|"
+				}
+				got[key] += row.Vals[len(row.Vals)-1].I
+				if _, dup := want[key]; !dup {
+					bad = "a group that no row of the table belongs to"
+				}
+			}
+			if bad == "" && len(res.Rows) != len(want) {
+				bad = fmt.Sprintf("%d groups, the table has %d distinct rows", len(res.Rows), len(want))
+			}
+			for k, n := range want {
+				if bad == "" && got[k] != n {
+					bad = fmt.Sprintf("a group counted %d times, the table has %d such rows", got[k], n)
+				}
+			}
+			if bad != "" {
+				c.Violation("C07:requery:group-by-all-columns", fmt.Sprintf("after %d statements %s: %s", p.step+1, p.text, bad), rp)
+				return
+			}
+			c.Count("group_by_every_column_compared", 1)
+			continue
 		}
 		if len(res.Rows) != 1 || len(res.Rows[0].Vals) != 1 || res.Rows[0].Vals[0].K != 'i' {
 			c.Violation("C07:requery:result-shape", fmt.Sprintf("%s returned %d rows", p.text, len(res.Rows)), rp)
